@@ -736,7 +736,9 @@ func inflight(r *vh.Run, i int) {
 	pr, pw := io.Pipe()
 	// in some of the trials with more data the request in flight is a PATCH, not the completing PUT: the bytes it
 	// delivers after the session has ended belong to no session, acknowledging them would be "further use"
-	usePatch := !noMore && (i/12)%2 == 1
+	// (also when nothing more arrives: the answer then acknowledges a chunk - and hands out a Location to go on with - for
+	// a session that has ceased to exist)
+	usePatch := (i/12)%2 == 1
 	req := httptest.NewRequest("PUT", path+"?state="+state(int64(len(part1)))+"&digest="+d, &pipeBody{r: pr})
 	if usePatch {
 		req = httptest.NewRequest("PATCH", path+"?state="+state(int64(len(part1))), &pipeBody{r: pr})
@@ -815,7 +817,7 @@ func inflight(r *vh.Run, i int) {
 	if usePatch {
 		wit["request_in_flight"] = "PATCH"
 		if st >= 200 && st < 300 {
-			r.Violation("ended-session-accepted-data:"+how, fmt.Sprintf("the session was ended (%s) while the body of a PATCH was in flight; %d more bytes arrived afterwards and the PATCH was acknowledged with %d (%s store)", how, len(part2b), st, kind), wit)
+			r.Violation("ended-session-accepted-data:"+how, fmt.Sprintf("the session was ended (%s) while the body of a PATCH was in flight; %d more bytes arrived afterwards and the PATCH was acknowledged with %d - for a session that no longer exists (%s store)", how, len(part2b), st, kind), wit)
 		}
 		return
 	}
